@@ -70,6 +70,13 @@ func main() {
 					ctx.Overlay[filepath.Join(run.RepoDir, rel)] = []byte(content)
 				} else {
 					ctx.TmplOverlay[rel] = content
+					// a patch to a contributed template set is analysed with that set overlaid
+					if i := strings.Index(rel, "templates/contrib/"); i >= 0 {
+						rest := rel[i+len("templates/contrib/"):]
+						if j := strings.IndexByte(rest, '/'); j > 0 {
+							ctx.Contrib = rest[:j]
+						}
+					}
 				}
 			}
 		}
